@@ -22,8 +22,22 @@ RULE = ("Fault enumeration over stored headers: for every base code object (ever
         "distinct (base object strict fingerprint, alteration) pairs plus distinct flag words.")
 
 
+def fingerprints_of_job_result(res):
+    out = []
+    for run in res.get("runs", []):
+        out.extend(v["fingerprint"] for v in run["violations"])
+    if "flagwords" in res:
+        out.extend(v["fingerprint"] for v in res["flagwords"]["violations"])
+    return out
+
+
 def replay(rec, tree):
     hubutil.check_interpreters([rec["interp"]])
+    if "job" in rec["record"]:
+        # cross-run state: the violation needs what earlier conversions in the same process left behind
+        job = dict(rec["record"]["job"], tree=tree)
+        res = hubutil.run_worker(rec["interp"], rec["hashseed"], job, timeout=1800)
+        return sorted(set(fingerprints_of_job_result(res)))
     job = {"engine": "C", "mode": "replay", "tree": tree, "tier": rec.get("tier", "quick"), "record": rec["record"]}
     res = hubutil.run_worker(rec["interp"], rec["hashseed"], job, timeout=300)
     return res["got"]
@@ -106,7 +120,7 @@ def run(prop, tier):
                     distinct[(j["interp"], d)] = n
                 per_interp[j["interp"]] = per_interp.get(j["interp"], 0) + run["tested"]
                 for v in run["violations"]:
-                    v["_interp"], v["_hashseed"], v["_run"], v["_seed"] = j["interp"], j["hashseed"], run["run"], run["seed"]
+                    v["_interp"], v["_hashseed"], v["_run"], v["_seed"], v["_job"] = j["interp"], j["hashseed"], run["run"], run["seed"], j["job"]
                     viols.append(v)
                 if "sample" in run:
                     samples.append(dict(run["sample"], interp=j["interp"], run=run["run"], seed=run["seed"]))
@@ -120,7 +134,7 @@ def run(prop, tier):
             pi["known_words"] += f["known_words"]
             pi["unknown_words"] += f["unknown_words"]
             for v in f["violations"]:
-                v["_interp"], v["_hashseed"] = j["interp"], j["hashseed"]
+                v["_interp"], v["_hashseed"], v["_job"] = j["interp"], j["hashseed"], j["job"]
                 viols.append(v)
 
     hubutil.dump_digests(prop, [(run["run"], "%d/%s" % (run["tested"], json.dumps(run["verdicts"], sort_keys=True)))
@@ -150,8 +164,13 @@ def run(prop, tier):
                "detail": {k: x for k, x in v.items() if not k.startswith("_") and k != "prog"}, "record": record}
         got = replay(rec, tree)
         if f not in got:
-            unconfirmed += 1
-            continue
+            # second level: re-execute the whole original job (cross-run / cross-conversion state)
+            rec["record"] = {"job": dict(v["_job"], tree="<scratch>")}
+            rec["cross_run_state"] = True
+            got = replay(rec, tree)
+            if f not in got:
+                unconfirmed += 1
+                continue
         path = os.path.join(hubutil.VERIF, "replays", "%s-%s.json" % (prop, prng.derive(f) % (10 ** 8)))
         with open(path, "w") as fh:
             json.dump(rec, fh, indent=1)
